@@ -51,6 +51,11 @@ type (
 		Vars []SVar
 		Body SExpr
 		Trig []SExpr // optional explicit trigger: forall i int :: {t1, t2} body
+		// Witness: for `exists v T witness e :: body` — when the clause is being
+		// proved for the function's own body, v is instantiated with e (which may
+		// name locals at the return point); callers only learn the existential.
+		Witness    []SExpr
+		UseWitness bool
 	}
 	SCond struct{ C, A, B SExpr }
 )
@@ -328,6 +333,7 @@ func (p *sparser) primary() SExpr {
 			return &SLit{"nil", "nil"}
 		case "forall", "exists":
 			var vars []SVar
+			var witness []SExpr
 			for {
 				var names []string
 				names = append(names, p.identName())
@@ -337,6 +343,10 @@ func (p *sparser) primary() SExpr {
 				ty := p.typeName()
 				for _, n := range names {
 					vars = append(vars, SVar{n, ty})
+				}
+				if p.isIdent("witness") {
+					p.next()
+					witness = append(witness, p.expr())
 				}
 				if p.accept("::") {
 					break
@@ -354,7 +364,10 @@ func (p *sparser) primary() SExpr {
 				}
 			}
 			body := p.expr()
-			return &SQuant{All: t.text == "forall", Vars: vars, Body: body, Trig: trig}
+			if len(witness) > 0 && (t.text == "forall" || len(witness) != len(vars)) {
+				p.fail("witness needs exists and one expression per variable")
+			}
+			return &SQuant{All: t.text == "forall", Vars: vars, Body: body, Trig: trig, Witness: witness}
 		}
 		return &SIdent{t.text}
 	case "op":
@@ -897,4 +910,25 @@ func splitTopLevel(s string) []string {
 func (p *sparser) isIdent(name string) bool {
 	t := p.peek()
 	return t.kind == "ident" && t.text == name
+}
+
+// withWitnesses returns e with the witness hints of existentials in positive
+// positions (top level, under && and on the right of ==>) switched on.
+func withWitnesses(e SExpr) SExpr {
+	switch t := e.(type) {
+	case *SBinary:
+		switch t.Op {
+		case "&&":
+			return &SBinary{t.Op, withWitnesses(t.X), withWitnesses(t.Y)}
+		case "==>":
+			return &SBinary{t.Op, t.X, withWitnesses(t.Y)}
+		}
+	case *SQuant:
+		if !t.All && len(t.Witness) > 0 {
+			c := *t
+			c.UseWitness = true
+			return &c
+		}
+	}
+	return e
 }
